@@ -69,7 +69,7 @@ func c04Run(f []string) (res string) {
 		return fmt.Sprintf("ok errs=%d done=%d t=%s r=%s", errs, d, HexList(atReturn), HexList(held))
 	}
 	switch f[0] {
-	case "big", "nocb":
+	case "big", "nocb", "scr":
 		return c04RunBig(f)
 	case "conc":
 		return c04RunConc(f)
@@ -382,7 +382,7 @@ func c04Stats(cases []string) map[string]int {
 				st["script.fail"]++
 			}
 			continue
-		case "rl", "nocb":
+		case "rl", "nocb", "scr":
 			f = f[1:]
 		case "sync":
 			f = []string{"sync", "131072", f[2], f[3]}
